@@ -35,9 +35,10 @@ Proof. reflexivity. Qed.
 
 (* FIX-STATE FACTS ARE OBLIGATIONS.  The loader pin only accepts the post-fix shapes; the facts regenerated from it must be true:
    only top-level templates are indexed (af716bd), the walk stops at pydsdl.Any (52035ba), additional globals are rejected if
-   already defined (6db3613).  Reverting one of these fixes makes this Example (and the pin) fail. *)
+   already defined (6db3613), names the file-system loader cannot load (dangling links) are not indexed (5a15038: the listing the
+   model receives is the listing of LOADABLE files).  Reverting one of these fixes makes this Example (and the pin) fail. *)
 Example C16_fix_state :
-  g_index_top_level_only = true /\ g_chain_ends_at_any = true /\ g_gate_checks_existing = true.
+  g_index_top_level_only = true /\ g_chain_ends_at_any = true /\ g_gate_checks_existing = true /\ g_index_checks_loadable = true.
 Proof. repeat split; reflexivity. Qed.
 
 (* SCOPE OF ALL LOOKUP THEOREMS BELOW: the template directories do not change during the life of a loader (the code re-lists them on
